@@ -39,7 +39,7 @@ PROPS["C19"] = {
     "design_ref": "DESIGN.md section 5, C19",
 }
 PROPS["C16"] = {
-    "units": {"kani": ["c16_serialization", "c16_pack", "c10_bytes", "c16_arch_columns", "c16_zkir_arity", "c16_zkir_into_bytes", "c16_zkir_used_chips", "c11_compressed_flags"], "polyvc": ["c11_bls", "c16_zkir_routing", "c16_vk_read"]},
+    "units": {"kani": ["c16_serialization", "c16_pack", "c10_bytes", "c16_arch_columns", "c16_zkir_arity", "c16_zkir_into_bytes", "c16_zkir_used_chips", "c11_compressed_flags", "c16_params_k"], "polyvc": ["c11_bls", "c16_zkir_routing", "c16_vk_read"]},
     "scope": "pure-Rust byte decoders: the automaton Serialize::deserialize family, pack/unpack of selector bytes, and (shared with C10) the canonical-field-encoding decoders",
     "not_decided": ["VerifyingKey::read_from_cs, bincode itself, the rest of ZkStdLib::configure, ParamsKZG::read_custom: generic / iterator / FFI code", "that Instruction::check_arity accepts only what the off-circuit / in-circuit IR parsers can process without panicking",
                     "the verifier itself (verifier.rs) is not under contract: only the invariant it relies on when indexing vk.fixed_commitments is established at decode time (both panics named in the property text were reproduced and repaired)", "IR compile panics that need whole-program reasoning (Jubjub constants without the jubjub chip) or a policy bound (IntoBytes allocation)",
